@@ -36,3 +36,85 @@ Example C06_mpeg4audio_example :
    end) = ([[65534; 65535]; [0]], [[false; true]; [true]], [[6; 5]; [6]])
   /\ minmax (mkCfg 6 2 2) <= 6.
 Proof. split; vm_compute; [reflexivity|discriminate]. Qed.
+
+(* ---- the translated kernels (tools/go2coq, regenerated from the Go source on every run) ----
+   The integer formulas of rtpmpeg4audio/encoder.go - lenAggregated (n := 2; auHeadersLen += SizeLength + IndexLength for the
+   first AU / + IndexDeltaLength for the others, the same choice for addAU, n += auHeadersLen / 8, n++ if auHeadersLen % 8
+   != 0, n += len(au), n += len(addAU): three loops over the translated statements), the aggregation test
+   lenAggregated(batch, au) <= PayloadMaxSize, the writeBatch dispatch len(aus) != 1 || lenAggregated(aus, nil) <
+   PayloadMaxSize, writeFragmented's auHeadersLen := SizeLength + IndexLength with its round-up to bytes, the budget
+   PayloadMaxSize - 2 - auHeadersLenBytes, the fragment count, the size 2+auHeadersLenBytes+le, the bytes
+   byte(auHeadersLen >> 8) / byte(auHeadersLen), the last-fragment test and the marker expression, writeAggregated's
+   `written` loop, pos = 2 + written / 8 (+1), byte(written >> 8) / byte(written), the two e.sequenceNumber++,
+   timestamp += uint32(len(batch)) * mpeg4audio.SamplesPerAccessUnit - ARE the formulas of Model.len_agg / hbits / ceil8 /
+   batch_loop / write_batch / write_frag / frag_pkts / be16 / write_agg / enc_batches. *)
+From Coq Require Import ZArith.
+From GVL Require Import Chunks.
+From GVG Require Import Kern.
+From GV_mpeg4audio Require Import BridgeLib Bridge.
+Open Scope Z_scope.
+
+Theorem C06_mpeg4audio_kernels_are_the_code :
+  forall (c : cfg) (max : N) (batch : list bytes) (au p : bytes) (i pc s ts : N),
+  Z.of_N max < i64max -> Z.of_N (nlen batch + 1) < i64max -> Z.of_N (hbits c (nlen batch + 1)) < i64max ->
+  Z.of_N (len_agg c batch (Some au)) < i64max ->
+  Z.of_N (2 + ceil8 (hw c true) + nlen p) < i64max -> (1 <= pc)%N -> Z.of_N pc < i64max ->
+  la_code c batch None = Z.of_N (len_agg c batch None) /\
+  k_mpeg4audio_agg_fits (la_code c batch (Some au)) (Z.of_N max) = (len_agg c batch (Some au) <=? max)%N /\
+  k_mpeg4audio_batch_agg (Z.of_N (nlen batch)) (la_code c batch None) (Z.of_N max)
+    = (negb (nlen batch =? 1)%N || (len_agg c batch None <? max)%N) /\
+  k_mpeg4audio_fr_hlen (Z.of_N (sl c)) (Z.of_N (il c)) = Z.of_N (hw c true) /\
+  fr_hb_code c = Z.of_N (ceil8 (hw c true)) /\
+  ((2 + ceil8 (hw c true) + 1 <= max)%N ->
+     k_mpeg4audio_fr_avail (Z.of_N max) (fr_hb_code c) = Z.of_N (max - 2 - ceil8 (hw c true)) /\
+     k_mpeg4audio_packetCount (k_mpeg4audio_fr_avail (Z.of_N max) (fr_hb_code c)) (Z.of_N (nlen au))
+       = Some (Z.of_N (nlen (chunks (max - 2 - ceil8 (hw c true)) au)))) /\
+  k_mpeg4audio_fr_size (fr_hb_code c) (Z.of_N (nlen p))
+    = Z.of_N (nlen (be16 (hw c true) ++ pack (au_hdr c true (nlen p)) ++ p)) /\
+  [k_mpeg4audio_fr_hl_hi (k_mpeg4audio_fr_hlen (Z.of_N (sl c)) (Z.of_N (il c)));
+   k_mpeg4audio_fr_hl_lo (k_mpeg4audio_fr_hlen (Z.of_N (sl c)) (Z.of_N (il c)))]
+    = map Z.of_N (be16 (hw c true)) /\
+  k_mpeg4audio_fr_last (Z.of_N i) (Z.of_N pc) = (i + 1 =? pc)%N /\
+  k_mpeg4audio_fr_marker (Z.of_N i) (Z.of_N pc) = (i + 1 =? pc)%N /\
+  wa_written c batch = Z.of_N (hbits c (nlen batch)) /\
+  wa_pos_code c batch = Z.of_N (nlen (be16 (hbits c (nlen batch)) ++ pack (hdr_bits c true batch))) /\
+  [k_mpeg4audio_wa_hl_hi (wa_written c batch); k_mpeg4audio_wa_hl_lo (wa_written c batch)]
+    = map Z.of_N (be16 (hbits c (nlen batch))) /\
+  k_mpeg4audio_seq_frag (Z.of_N s) = Z.of_N (seq_next s) /\ k_mpeg4audio_seq_agg (Z.of_N s) = Z.of_N (seq_next s) /\
+  k_mpeg4audio_ts_step (Z.of_N ts) (Z.of_N (nlen batch)) (Z.of_N spau) = Z.of_N ((ts + nlen batch * spau) mod 4294967296).
+Proof. exact Bridge.enc_kernels_are_the_code. Qed.
+Print Assumptions C06_mpeg4audio_kernels_are_the_code.
+
+(* the dispatch of Model.write_batch is that boolean; Model.frag_pkts puts the marker where the kernel says *)
+Theorem C06_mpeg4audio_write_batch_dispatch : forall c max batch ts seq,
+  write_batch c max batch ts seq =
+  if negb (nlen batch =? 1)%N || (len_agg c batch None <? max)%N then Some (write_agg c batch ts seq)
+  else match batch with au :: _ => write_frag c max au ts seq | [] => None end.
+Proof. exact Bridge.write_batch_dispatch. Qed.
+Print Assumptions C06_mpeg4audio_write_batch_dispatch.
+
+Theorem C06_mpeg4audio_marker_position : forall c ts (cs : list bytes) seq i, (i < length cs)%nat ->
+  nth i (map pmarker (frag_pkts c seq ts cs)) false = (N.of_nat i + 1 =? nlen cs)%N.
+Proof. exact Bridge.frag_pkts_marker_at. Qed.
+Print Assumptions C06_mpeg4audio_marker_position.
+
+(* the translated kernels compute, on the boundaries (AAC-hbr 13/3/3 and the unaligned 12/4/2): 16 header bits are 2
+   bytes, 17 would be 3; a 1450-byte limit leaves 1446 bytes per fragment; an aggregate of exactly 1450 bytes fits, 1451
+   does not; one AU whose aggregate is 1450 bytes is fragmented, 1449 is sent alone, two AUs are always aggregated;
+   lenAggregated([3 bytes], 1 byte) = 2 + ceil(32/8) + 3 + 1 with 13/3/3 and 2 + ceil(30/8) + 4 with 12/4/2; the AUs of
+   three 12/4/2 headers (16+14+14 = 44 bits) start at byte 2 + 6; 65535++ = 0; the timestamp wraps in uint32 *)
+Example C06_mpeg4audio_example_kernels :
+  fr_hb_code (mkCfg 13 3 3) = 2 /\ fr_hb_code (mkCfg 13 4 3) = 3 /\
+  k_mpeg4audio_fr_avail 1450 2 = 1446 /\ k_mpeg4audio_fr_size 2 1446 = 1450 /\
+  k_mpeg4audio_agg_fits 1450 1450 = true /\ k_mpeg4audio_agg_fits 1451 1450 = false /\
+  k_mpeg4audio_batch_agg 1 1450 1450 = false /\ k_mpeg4audio_batch_agg 1 1449 1450 = true /\
+  k_mpeg4audio_batch_agg 2 1450 1450 = true /\
+  k_mpeg4audio_packetCount (k_mpeg4audio_fr_avail 1450 2) 2893 = Some 3 /\
+  k_mpeg4audio_packetCount (k_mpeg4audio_fr_avail 1450 2) 2892 = Some 2 /\
+  la_code (mkCfg 13 3 3) [[1; 2; 3]%N] (Some [4%N]) = 10 /\ la_code (mkCfg 12 4 2) [[1; 2; 3]%N] (Some [4%N]) = 10 /\
+  la_code (mkCfg 12 4 2) [[1; 2; 3]%N] None = 7 /\
+  wa_written (mkCfg 12 4 2) [[1]%N; [2]%N; [3]%N] = 44 /\ wa_pos_code (mkCfg 12 4 2) [[1]%N; [2]%N; [3]%N] = 8 /\
+  k_mpeg4audio_fr_hl_hi 300 = 1 /\ k_mpeg4audio_fr_hl_lo 300 = 44 /\
+  k_mpeg4audio_fr_marker 2 3 = true /\ k_mpeg4audio_fr_marker 1 3 = false /\
+  k_mpeg4audio_seq_frag 65535 = 0 /\ k_mpeg4audio_ts_step 4294967295 2 1024 = 2047.
+Proof. vm_compute. repeat split. Qed.
